@@ -380,6 +380,7 @@ func main() {
 		srcs = append(srcs, repoSources(env)...)
 		srcs = append(srcs, probeSources(env)...)
 		srcs = append(srcs, gridSources(env.Thorough())...)
+		srcs = append(srcs, shallowSources()...)
 		srcs = append(srcs, generate(rng, env.Pick(120, 1500))...)
 	}
 	codes := compileAll(srcs, table, st)
